@@ -204,6 +204,26 @@ func (r *Runner) Case(desc any, fn func(t *T)) {
 	}
 }
 
+// mine tells whether the case with index i is executed by this process.
+func (r *Runner) mine(i int) bool {
+	if r.Replay >= 0 {
+		return i == r.Replay
+	}
+	return i%r.NBatch == r.Batch && !r.skip[i]
+}
+
+// CaseLazy is Case for descriptors that are expensive to generate: gen is called only if
+// the case belongs to this batch. gen must be a pure function of values fixed before the
+// call (fork the PRNG outside, so that the stream advances identically in every batch).
+func (r *Runner) CaseLazy(gen func() any, fn func(t *T, desc any)) {
+	if !r.mine(r.next) {
+		r.next++
+		return
+	}
+	d := gen()
+	r.Case(d, func(t *T) { fn(t, d) })
+}
+
 // CaseAll runs fn in every batch (it is not part of the round-robin split): used for
 // observations that must be compared across separately started OS processes.
 func (r *Runner) CaseAll(desc any, fn func(t *T)) {
